@@ -242,7 +242,16 @@ def run_driver(scenarios, name, timeout=900, extra_args=()):
 
 def _tlc_env(extra_java=""):
     env = dict(os.environ)
-    env["JAVA_TOOL_OPTIONS"] = (f"-DTLA-Library={SPEC}:{SPEC}/mc:{SPEC}/trace "
+    # TLC unpacks its standard modules into a fresh directory of java.io.tmpdir on every run:
+    # keep those under work/ (one directory per checking process, removed when it exits) instead
+    # of /tmp; concurrent TLC runs of one process share it, each with its own tlc-* subdirectory
+    jtmp = os.path.join(WORK, "jtmp", str(os.getpid()))
+    if not os.path.isdir(jtmp):
+        os.makedirs(jtmp, exist_ok=True)
+        import atexit
+        import shutil
+        atexit.register(shutil.rmtree, jtmp, True)
+    env["JAVA_TOOL_OPTIONS"] = (f"-DTLA-Library={SPEC}:{SPEC}/mc:{SPEC}/trace -Djava.io.tmpdir={jtmp} "
                                 + extra_java).strip()
     return env
 
